@@ -214,7 +214,14 @@ def rule_h(ctx):
     bcast.output_slot_rules(ctx)
 
 
+def rule_i(ctx):
+    """shared clause group: a message that was sent is processed before the step can be complete"""
+    from . import c02, c05
+    c02.rule_a(ctx)
+    c05.recv_awaits_handler(ctx)
+
 RULES = [
+    ("C04.i", "a send completes only when enqueued; the receiver runs each handler to completion", rule_i),
     ("C04.h", "a broadcast neither resolves early nor stalls: counter, waker registration, slot reuse", rule_h),
     ("C04.a", "spawned work is run before Ok", rule_a),
     ("C04.b", "mt Executor::run: activate, Ok iff idle and count 0", rule_b),
